@@ -2,16 +2,70 @@ package c19
 
 import (
 	"fmt"
+	"io"
 	"net"
+	"os"
+	"sort"
+	"strings"
+	"sync"
 	"sync/atomic"
+	"syscall"
 	"time"
 )
 
-// poolConn is the fake net.Conn handed to the websocket pool: it only records Close.
+// poolConn is the fake net.Conn handed to the websocket pool. It records Close, and - when it was made
+// by newPoolConn - it behaves towards its owner like a TCP connection whose PEER follows a script:
+// blocking reads and writes honour the deadlines set on the connection (as every real net.Conn does),
+// Close unblocks them, and every Read / Write the owner performs is logged. All waiting is done on
+// timers and channels created by the goroutine that made the connection, so inside a synctest bubble
+// it costs virtual time only.
+//
+// The zero peer ("" - what &poolConn{backend: b} gives) is the connection the older sub-checks use:
+// Read and Write return at once.
+//
+// Peer scripts (what the other end of an idle, pooled connection may be doing when Helios shuts down):
+//
+//	answers       alive WebSocket endpoint: consumes what is sent, answers the first thing it is sent
+//	              with a Close frame at once and then closes its side
+//	answers-late  the same, but the answer arrives DelayMs after the first write (a busy or far peer)
+//	silent        alive at TCP level, consumes what is sent, never says anything (hung / paused process,
+//	              partition, a peer that is itself shutting down)
+//	stalled       alive at TCP level but not reading, its receive window and the local send buffer are
+//	              full: a write blocks, a read blocks
+//	chatty        has unsolicited frames (pings) in flight all the time: a read returns one at once
+//	gone-fin      the peer has closed its side already (FIN received): read = EOF, write = EPIPE
+//	gone-rst      the peer has reset the connection: read and write = ECONNRESET
+//
+// The statement of C19 gives the peers of pooled connections no say in how long a shutdown takes, so
+// none of these may delay a shutdown call beyond its bound or keep a pooled connection open.
 type poolConn struct {
 	backend  int
 	closed   atomic.Int32
 	accepted bool
+
+	peer    string
+	delay   time.Duration // answers-late
+	gone    chan struct{} // closed by Close (or abandon): unblocks pending reads / writes
+	once    sync.Once
+	mu      sync.Mutex
+	rdl     time.Time // read deadline (zero = none)
+	wdl     time.Time // write deadline
+	replyAt time.Time // answers*: when the peer's answer to the first write is readable
+	wrote   bool
+	replied bool
+	io      []string // what the owner did on the connection: "Write 8 B", "Read blocks (deadline in 2s)", "-> deadline exceeded after 2s" ...
+}
+
+// peerKinds lists the peer scripts newPoolConn understands (without the legacy "").
+var peerKinds = []string{"answers", "answers-late", "silent", "stalled", "chatty", "gone-fin", "gone-rst"}
+
+// unresponsive: a peer that never answers promptly, whatever is sent to it.
+func unresponsive(peer string, delayMs int) bool {
+	return peer == "silent" || peer == "stalled" || (peer == "answers-late" && delayMs >= 1000)
+}
+
+func newPoolConn(backend int, peer string, delayMs int) *poolConn {
+	return &poolConn{backend: backend, peer: peer, delay: time.Duration(delayMs) * time.Millisecond, gone: make(chan struct{})}
 }
 
 type poolAddr string
@@ -19,21 +73,205 @@ type poolAddr string
 func (a poolAddr) Network() string { return "fake" }
 func (a poolAddr) String() string  { return string(a) }
 
+func (c *poolConn) note(format string, args ...any) {
+	c.mu.Lock()
+	if len(c.io) < 16 {
+		c.io = append(c.io, fmt.Sprintf(format, args...))
+	}
+	c.mu.Unlock()
+}
+
+// ioLog: what the owner of the connection did on it so far.
+func (c *poolConn) ioLog() string {
+	c.mu.Lock()
+	defer c.mu.Unlock()
+	if len(c.io) == 0 {
+		return "no I/O"
+	}
+	return strings.Join(c.io, ", ")
+}
+
+// block waits until the deadline passes, the connection is closed, or (until non-zero) the instant
+// until is reached. It returns nil only in the last case.
+func (c *poolConn) block(what string, deadline, until time.Time) error {
+	start := time.Now()
+	var dl, ready <-chan time.Time
+	if !deadline.IsZero() {
+		d := time.Until(deadline)
+		if d <= 0 {
+			c.note("%s: deadline already passed", what)
+			return os.ErrDeadlineExceeded
+		}
+		t := time.NewTimer(d)
+		defer t.Stop()
+		dl = t.C
+		c.note("%s blocks (deadline in %v)", what, d)
+	} else {
+		c.note("%s blocks (no deadline set)", what)
+	}
+	if !until.IsZero() {
+		t := time.NewTimer(time.Until(until))
+		defer t.Stop()
+		ready = t.C
+	}
+	select {
+	case <-ready:
+		c.note("-> the peer answered after %v", time.Since(start))
+		return nil
+	case <-dl:
+		c.note("-> deadline exceeded after %v", time.Since(start))
+		return os.ErrDeadlineExceeded
+	case <-c.gone:
+		c.note("-> connection closed after %v", time.Since(start))
+		return net.ErrClosed
+	}
+}
+
+var closeFrame = []byte{0x88, 0x02, 0x03, 0xE8} // unmasked (server to client) Close, status 1000
+var pingFrame = []byte{0x89, 0x00}
+
 func (c *poolConn) Read(b []byte) (int, error) {
 	if c.closed.Load() > 0 {
 		return 0, net.ErrClosed
 	}
-	return 0, nil
+	if c.peer == "" {
+		return 0, nil
+	}
+	c.mu.Lock()
+	dl, replyAt, replied := c.rdl, c.replyAt, c.replied
+	c.mu.Unlock()
+	switch c.peer {
+	case "gone-fin":
+		c.note("Read: EOF")
+		return 0, io.EOF
+	case "gone-rst":
+		c.note("Read: reset")
+		return 0, &net.OpError{Op: "read", Net: "fake", Err: syscall.ECONNRESET}
+	case "chatty":
+		c.note("Read: a ping frame")
+		return copy(b, pingFrame), nil
+	case "answers", "answers-late":
+		if replied {
+			c.note("Read: EOF")
+			return 0, io.EOF
+		}
+		if !replyAt.IsZero() {
+			if err := c.block("Read", dl, replyAt); err != nil {
+				return 0, err
+			}
+			c.mu.Lock()
+			c.replied = true
+			c.mu.Unlock()
+			c.note("Read: the peer's Close frame")
+			return copy(b, closeFrame), nil
+		}
+	}
+	// nothing to read and nothing on its way
+	return 0, c.block("Read", dl, time.Time{})
 }
+
 func (c *poolConn) Write(b []byte) (int, error) {
 	if c.closed.Load() > 0 {
 		return 0, net.ErrClosed
 	}
+	if c.peer == "" {
+		return len(b), nil
+	}
+	switch c.peer {
+	case "gone-fin":
+		c.note("Write %d B: broken pipe", len(b))
+		return 0, &net.OpError{Op: "write", Net: "fake", Err: syscall.EPIPE}
+	case "gone-rst":
+		c.note("Write %d B: reset", len(b))
+		return 0, &net.OpError{Op: "write", Net: "fake", Err: syscall.ECONNRESET}
+	case "stalled":
+		c.mu.Lock()
+		dl := c.wdl
+		c.mu.Unlock()
+		return 0, c.block(fmt.Sprintf("Write %d B", len(b)), dl, time.Time{})
+	}
+	c.mu.Lock()
+	if !c.wrote {
+		c.wrote = true
+		c.replyAt = time.Now().Add(c.delay)
+	}
+	c.mu.Unlock()
+	c.note("Write %d B", len(b))
 	return len(b), nil
 }
-func (c *poolConn) Close() error                       { c.closed.Add(1); return nil }
-func (c *poolConn) LocalAddr() net.Addr                { return poolAddr("local") }
-func (c *poolConn) RemoteAddr() net.Addr               { return poolAddr(fmt.Sprintf("backend%d", c.backend)) }
-func (c *poolConn) SetDeadline(t time.Time) error      { return nil }
-func (c *poolConn) SetReadDeadline(t time.Time) error  { return nil }
-func (c *poolConn) SetWriteDeadline(t time.Time) error { return nil }
+
+func (c *poolConn) Close() error {
+	c.closed.Add(1)
+	c.abandon()
+	return nil
+}
+
+// abandon unblocks pending reads and writes without counting as a Close by the owner (the harness
+// gives up on a case).
+func (c *poolConn) abandon() {
+	if c.gone != nil {
+		c.once.Do(func() { close(c.gone) })
+	}
+}
+
+func (c *poolConn) LocalAddr() net.Addr  { return poolAddr("local") }
+func (c *poolConn) RemoteAddr() net.Addr { return poolAddr(fmt.Sprintf("backend%d", c.backend)) }
+func (c *poolConn) SetDeadline(t time.Time) error {
+	c.mu.Lock()
+	c.rdl, c.wdl = t, t
+	c.mu.Unlock()
+	return nil
+}
+func (c *poolConn) SetReadDeadline(t time.Time) error {
+	c.mu.Lock()
+	c.rdl = t
+	c.mu.Unlock()
+	return nil
+}
+func (c *poolConn) SetWriteDeadline(t time.Time) error {
+	c.mu.Lock()
+	c.wdl = t
+	c.mu.Unlock()
+	return nil
+}
+
+// describePooled renders, for a violation message, the connections that were idle in the pool when a
+// shutdown call was issued: how many per peer script, and what the pool did on those it touched.
+func describePooled(conns []*poolConn, ids []int) string {
+	if len(conns) == 0 {
+		return "no connection was idle in the pool when the call was issued"
+	}
+	return describeConns(conns, ids, "were idle in the pool when the call was issued")
+}
+
+// describeConns: conns (with their case-wide numbers ids) "<what>", by peer script, and the I/O done on them.
+func describeConns(conns []*poolConn, ids []int, what string) string {
+	count := map[string]int{}
+	var touched []string
+	for i, pc := range conns {
+		k := pc.peer
+		if k == "" {
+			k = "instant"
+		}
+		count[k]++
+		if l := pc.ioLog(); l != "no I/O" && len(touched) < 6 {
+			state := "still open"
+			if pc.closed.Load() > 0 {
+				state = "closed"
+			}
+			touched = append(touched, fmt.Sprintf("#%d (peer %s, %s): %s", ids[i], k, state, l))
+		}
+	}
+	var kinds []string
+	for k, n := range count {
+		kinds = append(kinds, fmt.Sprintf("%d x %s", n, k))
+	}
+	sort.Strings(kinds)
+	s := fmt.Sprintf("%d connection(s) %s (peers: %s)", len(conns), what, strings.Join(kinds, ", "))
+	if len(touched) > 0 {
+		s += "; I/O the pool performed on them meanwhile: " + strings.Join(touched, " | ")
+	} else {
+		s += "; the pool performed no I/O on them"
+	}
+	return s
+}
